@@ -204,7 +204,8 @@ pub async fn worker(
 
 		let config_pathset = config.pathset.get();
 		tracing::info!(?config_pathset, "obtaining pathset");
-		let (to_watch, to_drop) = if pathset.is_empty() {
+		let configured = config_pathset.clone();
+		let (mut to_watch, to_drop) = if pathset.is_empty() {
 			// if the current pathset is empty, we can take a shortcut
 			(config_pathset, Vec::new())
 		} else {
@@ -242,7 +243,15 @@ pub async fn worker(
 					errors.send(e).await?;
 				}
 			} else {
-				pathset.remove(&path);
+				// the watcher keys by path alone: whatever was registered for this path is gone
+				// now, including the same path in another recursion mode (after an earlier failed
+				// unwatch), which must then be watched anew
+				pathset.retain(|p| p.path != path.path);
+				if let Some(again) = configured.iter().find(|p| p.path == path.path) {
+					if !to_watch.contains(again) {
+						to_watch.push(again.clone());
+					}
+				}
 			}
 		}
 
